@@ -98,6 +98,10 @@ def run(ctx):
             law("constant-passes-unchanged", np.atleast_2d(BPF(mk(np.full((npol, n), 1 - 2j)), BWo, order).signal), np.full((npol, n), 1 - 2j), tol=10 ** 6)
             events.append({"kind": "shape", "same": bool(type(Bo) is optical_signal and Bo.n_pol == npol and Bo.signal.shape == mk(cx).signal.shape and Bo.noise is not None)})
             meta.append(("shape", "BPF"))
+            if n >= 257 and BWo / 2 / fs * n >= 8:       # no delay in the optical filter either: a symmetric complex pulse stays symmetric about its centre
+                p = np.exp(-((np.arange(n) - (n - 1) / 2) / (0.02 * n)) ** 2) * (0.6 - 0.8j)
+                rB = BPF(optical_signal(p), BWo, order).signal
+                law("zero-delay-symmetric-pulse", rB[::-1] + 1, rB + 1, tol=10 ** 6)
         ctx.case(("laws", order, n, npol, it % 3, BW / fs > 0.2), {"LPF/BPF laws": {"n": order, "BW/fs": BW / fs, "len": n, "npol": npol}})
     # ------------------------------------------------------------------ narrow and steep filters, long and odd records, twin signal rows
     from ..core import pollute_gv
